@@ -31,6 +31,50 @@ MULTILINE = [
 ]
 
 
+def unpositioned_parent_programs(rng, n):
+    """Flagged literals whose parent node has no position of its own (`arguments`, `comprehension`, `withitem`, `match_case`): the range then comes
+    from the neighbouring positioned nodes.  Multi-line parameter lists with defaults in every parameter class and order, where the LAST child in
+    field order (last positional default, **kwarg, last kw-only default) ends above or below the flagged one (seeded change C10-m7 took
+    `first child .lineno .. last child .end_lineno`)."""
+    FLAG = ["'0.0.0.0'", "'/tmp/x.sock'", "'/var/tmp/y'", "'hunter2'"]
+    PLAIN = ["8080", "None", "(1,\n        2)", "dict(\n        a=1)", "3.5", "b'x'"]
+    out = []
+    for _ in range(n):
+        k = rng.randrange(6)
+        if k <= 2:
+            names = ["host", "password", "token", "bind", "scratch", "retries", "secret", "path"]
+            rng.shuffle(names)
+            n_pos, n_args, n_kw = rng.randint(0, 2), rng.randint(1, 3), rng.randint(0, 3)
+            parts = []
+            need_default = False
+            def param(nm, force):
+                nonlocal need_default
+                if force or need_default or rng.random() < 0.7:
+                    need_default = True
+                    return f"{nm}={rng.choice(FLAG + PLAIN)}"
+                return nm
+            pos = [param(names.pop(), False) for _ in range(n_pos)]
+            args = [param(names.pop(), False) for _ in range(n_args)]
+            parts += pos + (["/"] if pos else []) + args
+            if n_kw:
+                parts.append(rng.choice(["*", "*rest"]))
+                parts += [f"{names.pop()}={rng.choice(FLAG + PLAIN)}" if rng.random() < 0.8 else names.pop() for _ in range(n_kw)]
+            if rng.random() < 0.5:
+                parts.append("**extra")
+            sep = ",\n        "
+            head = rng.choice(["def serve(", "async def serve(", "class K:\n    def serve(self, "])
+            ind = "        " if head.startswith("class") else "    "
+            out.append(f"{head}{sep.join(parts)}):\n{ind}return 1\n")
+        elif k == 3:
+            a, b = rng.choice(FLAG + PLAIN), rng.choice(FLAG)
+            out.append(f"handler = lambda host={a},\\\n    *, bind={b},\\\n    **kw: host\n")
+        elif k == 4:
+            out.append(f"rows = [x\n        for x in\n        {rng.choice(FLAG)}\n        if x !=\n        {rng.choice(FLAG)}\n        if ok(x)]\n")
+        else:
+            out.append(f"with open(\n        {rng.choice(FLAG)}) as fh, \\\n     lock({rng.choice(FLAG)},\n          1) as lk:\n    pass\nmatch cmd:\n    case {rng.choice(FLAG)} | \\\n         'other':\n        go()\n")
+    return out
+
+
 def safe_insert_points(src: str):
     """1-based line numbers L such that inserting whole lines BEFORE line L keeps the program's meaning:
     not inside a multi-line string token, not after a backslash continuation"""
@@ -93,6 +137,12 @@ def _run_main(res, ctx):
                  "# first \u202d\nimport subprocess\nsubprocess.Popen(c,\n    shell=True)\n", "x = 1\n\x0c\n\x0c\ny = '\u2066'"]
     for _ in range(12 if thorough else 4):
         programs.append(progs.make_program(rng)[0])
+    for p in unpositioned_parent_programs(rng, 60 if thorough else 14):
+        try:
+            ast.parse(p)
+            programs.append(p)
+        except SyntaxError:
+            res.count("generated-invalid-dropped")
     scratch = C.Scratch()
     d = C.Driver() if ctx["driver_ok"] else None
     blids = C.blacklist_ids()
